@@ -1246,3 +1246,183 @@ Definition decl_accepts_b (catp : N -> N -> bool) (d : decl) (s : str) : bool :=
 
 (* witness of the seeded order: a path parameter ^[a-z]$ that declares no length *)
 Definition d_single : decl := mkDecl (Some TyString) NAbsent false (Some w_single) None None.
+
+(* ------------------------------------------------------------------------------------ *)
+(* 11. The VALUE side: what happens to a generated container between the strategy and     *)
+(*     the case (_hypothesis.py get_parameters_strategy: strategy.map(serialize),          *)
+(*     .filter(is_valid_path etc), .map(quote_all), .map(jsonify_python_specific_types)).         *)
+(*     Section 10 is the schema side (what from_schema is given); this is the chain the    *)
+(*     generated value then runs through, per location.                                    *)
+(* ------------------------------------------------------------------------------------ *)
+(* a generated primitive parameter value *)
+Inductive gval := GStr (s : str) | GBool (b : bool) | GNull | GInt (z : Z).
+Definition container := list (str * gval).
+
+(* str.isspace of one code point = what str.lstrip() removes and what \s means in a str regex *)
+Definition py_space (c : N) : bool :=
+  ((9 <=? c) && (c <=? 13) || (28 <=? c) && (c <=? 32) || (c =? 133) || (c =? 160) || (c =? 5760) ||
+   (8192 <=? c) && (c <=? 8202) || (c =? 8232) || (c =? 8233) || (c =? 8239) || (c =? 8287) || (c =? 12288))%N.
+Fixpoint py_lstrip (s : str) : str :=
+  match s with c :: r => if py_space c then py_lstrip r else s | [] => [] end.
+
+(* decimal text of an integer: str(int) *)
+Fixpoint digits_fuel (fuel : nat) (n : N) (acc : str) : str :=
+  match fuel with
+  | O => acc
+  | S f => let acc' := (48 + n mod 10)%N :: acc in
+           if (n / 10 =? 0)%N then acc' else digits_fuel f (n / 10)%N acc'
+  end.
+Definition N_to_str (n : N) : str := digits_fuel (S (N.size_nat n)) n [].
+Definition Z_to_str (z : Z) : str :=
+  match z with Zneg p => 45%N :: N_to_str (Npos p) | _ => N_to_str (Z.to_N z) end.
+
+(* str(value): serialization.to_string *)
+Definition py_str (g : gval) : str :=
+  match g with
+  | GStr s => s
+  | GBool true => [84; 114; 117; 101]%N
+  | GBool false => [70; 97; 108; 115; 101]%N
+  | GNull => [78; 111; 110; 101]%N
+  | GInt z => Z_to_str z
+  end.
+
+(* jsonify_python_specific_types on one top-level value *)
+Definition jsonify_val (g : gval) : gval :=
+  match g with
+  | GBool true => GStr [116; 114; 117; 101]%N
+  | GBool false => GStr [102; 97; 108; 115; 101]%N
+  | GNull => GStr [110; 117; 108; 108]%N
+  | _ => g
+  end.
+
+(* UTF-8 bytes of a code point (bit masks as in the codec) *)
+Definition utf8_c (c : N) : list N :=
+  (if c <? 128 then [c mod 128]
+   else if c <? 2048 then [192 + (c / 64) mod 32; 128 + c mod 64]
+   else if c <? 65536 then [224 + (c / 4096) mod 16; 128 + (c / 64) mod 64; 128 + c mod 64]
+   else [240 + (c / 262144) mod 8; 128 + (c / 4096) mod 64; 128 + (c / 64) mod 64; 128 + c mod 64])%N.
+Definition utf8 (s : str) : list N := flat_map utf8_c s.
+
+(* urllib.parse.quote_plus on bytes: unreserved characters stay, space is +, anything else %XX (upper case) *)
+Definition hex_digit (n : N) : N := (if n <? 10 then 48 + n else 55 + n)%N.
+Definition quote_safe (b : N) : bool :=
+  (is_upper b || is_lower b || is_digit b || (b =? 95) || (b =? 46) || (b =? 45) || (b =? 126))%N.
+Definition quote_byte (b : N) : str :=
+  if quote_safe b then [b] else if (b =? 32)%N then [43%N] else [37%N; hex_digit (b / 16); hex_digit (b mod 16)].
+Definition quote_plus (s : str) : str := flat_map quote_byte (utf8 s).
+(* quote_all on one value: . and .. are spelled out *)
+Definition quote_val (g : gval) : gval :=
+  match g with
+  | GStr s => if str_eqb s [46%N] then GStr [37; 50; 69]%N
+              else if str_eqb s [46; 46]%N then GStr [37; 50; 69; 37; 50; 69]%N
+              else GStr (quote_plus s)
+  | _ => g
+  end.
+
+(* the reader side (urllib.parse.unquote_plus, before decoding the bytes): + is a space, %XX is a byte *)
+Definition hex_val (c : N) : N :=
+  (if is_digit c then c - 48 else if is_upper c then c - 55 else if is_lower c then c - 87 else 0)%N.
+Fixpoint unquote_plus_bytes (s : str) : list N :=
+  match s with
+  | [] => []
+  | c :: r =>
+    if (c =? 43)%N then 32%N :: unquote_plus_bytes r
+    else if (c =? 37)%N then
+      match r with
+      | h1 :: h2 :: r' => (16 * hex_val h1 + hex_val h2)%N :: unquote_plus_bytes r'
+      | _ => c :: unquote_plus_bytes r
+      end
+    else c :: unquote_plus_bytes r
+  end.
+
+(* the filters of openapi/generation/filters.py, on one (name, value) entry *)
+Definition is_surrogate (c : N) : bool := ((55296 <=? c) && (c <=? 57343))%N.
+Definition has_surrogate (s : str) : bool := existsb is_surrogate s.
+Definition is_crlf (c : N) : bool := ((c =? 10) || (c =? 13))%N.
+(* requests: header name ^[^:\s][^:\r\n]*\Z, header value ^\S[^\r\n]*\Z|^\Z *)
+Definition header_name_ok (n : str) : bool :=
+  match n with
+  | [] => false
+  | c :: r => negb (c =? 58)%N && negb (py_space c) && forallb (fun x => negb (x =? 58)%N && negb (is_crlf x)) r
+  end.
+Definition header_value_ok (s : str) : bool :=
+  forallb (fun c => (c <=? 255)%N) s &&
+  match s with [] => true | c :: r => negb (py_space c) && forallb (fun x => negb (is_crlf x)) r end.
+Definition entry_valid (l : ploc) (e : str * gval) : bool :=
+  match l, snd e with
+  | (LHeader | LCookie), GStr s => header_value_ok s && header_name_ok (fst e)
+  | (LHeader | LCookie), _ => false                         (* is_latin_1_encodable of a non-string *)
+  | LPath, GStr s => negb (str_eqb s []) && negb (has_surrogate s) &&
+                     negb (existsb (fun c => (c =? 47) || (c =? 123) || (c =? 125))%N s)
+  | LPath, _ => true
+  | LQuery, GStr s => negb (has_surrogate (fst e)) && negb (has_surrogate s)
+  | LQuery, _ => negb (has_surrogate (fst e))
+  end.
+
+(* one link of the chain *)
+Inductive vstep :=
+| VToString            (* strategy.map(serialize): to_string(name) of every header / cookie parameter *)
+| VFilter (l : ploc)   (* strategy.filter(is_valid_path / is_valid_header / is_valid_query) *)
+| VQuoteAll            (* strategy.map(quote_all) *)
+| VJsonify             (* strategy.map(jsonify_python_specific_types) *)
+| VLstrip.             (* NOT a link of the code as it is: str.lstrip() of every string value *)
+
+Definition map_vals (f : gval -> gval) (c : container) : container := map (fun e => (fst e, f (snd e))) c.
+Definition apply_vstep (st : vstep) (c : container) : option container :=
+  match st with
+  | VToString => Some (map_vals (fun g => GStr (py_str g)) c)
+  | VFilter l => if forallb (entry_valid l) c then Some c else None       (* None: the draw is discarded *)
+  | VQuoteAll => Some (map_vals quote_val c)
+  | VJsonify => Some (map_vals jsonify_val c)
+  | VLstrip => Some (map_vals (fun g => match g with GStr s => GStr (py_lstrip s) | _ => g end) c)
+  end.
+Fixpoint run_vsteps (steps : list vstep) (c : container) : option container :=
+  match steps with
+  | [] => Some c
+  | st :: rest => match apply_vstep st c with Some c' => run_vsteps rest c' | None => None end
+  end.
+
+(* get_parameters_strategy, the chain after strategy_factory(...); skip = _can_skip_header_filter(schema) *)
+Definition value_chain (l : ploc) (skip : bool) : list vstep :=
+  match l with
+  | LHeader | LCookie => VToString :: (if skip then [] else [VFilter l])
+  | LPath => [VFilter LPath; VQuoteAll; VJsonify]
+  | LQuery => [VFilter LQuery; VJsonify]
+  end.
+(* the seeded order: a strip between the serializer and the filter *)
+Definition seeded_value_chain (l : ploc) (skip : bool) : list vstep :=
+  match l with
+  | LHeader | LCookie => VToString :: (if skip then [] else [VLstrip; VFilter l])
+  | _ => value_chain l skip
+  end.
+
+(* what the property allows between the generated value and the value in the case: the string coercion of the location *)
+Definition coerced (l : ploc) (g out : gval) : bool :=
+  match l with
+  | LHeader | LCookie => match out with GStr s => str_eqb s (py_str g) | _ => false end
+  | LQuery =>
+    match g, out with
+    | GStr s, GStr s' => str_eqb s s'
+    | GInt z, GInt z' => Z.eqb z z'
+    | (GBool _ | GNull), GStr s' => match jsonify_val g with GStr j => str_eqb s' j | _ => false end
+    | _, _ => false
+    end
+  | LPath =>
+    match g, out with
+    | GStr s, GStr q => str_eqb (unquote_plus_bytes q) (utf8 s)
+    | GInt z, GInt z' => Z.eqb z z'
+    | (GBool _ | GNull), GStr s' => match jsonify_val g with GStr j => str_eqb s' j | _ => false end
+    | _, _ => false
+    end
+  end.
+Fixpoint all_coerced (l : ploc) (c c' : container) : bool :=
+  match c, c' with
+  | [], [] => true
+  | (n, g) :: r, (n', o) :: r' => str_eqb n n' && coerced l g o && all_coerced l r r'
+  | _, _ => false
+  end.
+
+(* witness of the seeded strip: vertical tab + 7 letters for a header that declares minLength 8 *)
+Definition s_vt7 : str := [11; 97; 98; 99; 100; 101; 102; 103]%N.
+Definition d_min8 : decl := mkDecl (Some TyString) NAbsent false None (Some 8) None.
+Definition c_vt7 : container := [([88; 45; 65]%N, GStr s_vt7)].
